@@ -133,11 +133,11 @@ class Ctx:
             units.update(p.units)
             nfun = max(nfun, len(p.fns))
         samples = []
-        seen_rules = set()
+        per = {}
         for i in self.instances:
-            if i["rule"] not in seen_rules or not i["ok"]:
-                seen_rules.add(i["rule"])
-                samples.append(dict(rule=i["rule"], site=i["site"], instance=i["what"], verdict="holds" if i["ok"] else "VIOLATED"))
+            per[i["rule"]] = per.get(i["rule"], 0) + 1
+            if per[i["rule"]] <= 3 or not i["ok"]:
+                samples.append(dict(rule=i["rule"], site=i["site"], instance=i["what"][:400], verdict="holds" if i["ok"] else "VIOLATED"))
         cov = dict(
             explanation=self.explanation,
             obligations=len(self.instances),
@@ -148,7 +148,8 @@ class Ctx:
                  "decided over all CFG paths or all cells of the input partition); distinct = distinct (rule, site, instance); an "
                  "instance is non-trivial when its anchor was found in the current source and its path/def-use query actually ran "
                  "(vanished anchors abort with exit 2 instead of passing)",
-            samples=samples[:60],
+            samples=samples[:90],
+            selftest=getattr(self, "selftest", None),
             rules={r: dict(statement=s, instances=sum(1 for i in self.instances if i["rule"] == r),
                            floor=self.floors.get(r, (None, None))[1]) for r, s in self.rules.items()},
             configurations=sorted(self.configs),
